@@ -3,7 +3,7 @@
 Require Import OV.Base.Bytes OV.Base.Py OV.Base.Insp_Struct OV.Gen.Insp_Consts OV.Model.Insp_Engine OV.Model.Insp_All.
 Require Import OV.Proofs.Insp_Engine OV.Proofs.Insp_FmtOk OV.Proofs.Insp_All.
 (* the translator-equivalence lemmas (gen_capture_equiv, gen_complete_equiv, gen_end_capture_equiv) are obligations too *)
-Require Import OV.Proofs.Insp_Equiv.
+Require Import OV.Proofs.Insp_Equiv OV.Proofs.Insp_EngineEquiv OV.Proofs.Insp_FormatEquiv OV.Proofs.Insp_FormatMatchEquiv.
 Open Scope N_scope.
 
 (* "Whatever an inspector retains for a region of the file is exactly the stream's bytes at that
@@ -76,3 +76,10 @@ Proof. reflexivity. Qed.
 
 Example C01_ireach_ex : ireach ([] ++ [75; 68; 77; 86]) (fst (eat (init F_vmdk) [75; 68; 77; 86])).
 Proof. eapply ireach_eat with (e := snd (eat (init F_vmdk) [75; 68; 77; 86])); [apply ireach_init | apply surjective_pairing]. Qed.
+
+(* The tie between the model's engine and the source: FileInspector.eat_chunk translated statement by statement
+   (Gen/Insp_EngineCode.v: sets of region objects, the `while new_regions` loop, the `only` filter, the callbacks)
+   equals the model's [eat] in every reachable state of every one of the ten inspectors. *)
+Theorem C01_source_eat_chunk_is_model : forall st i c, ireach st i -> gen_eat i c = eat i c.
+Proof. exact gen_eat_reachable_equiv. Qed.
+Print Assumptions C01_source_eat_chunk_is_model.
